@@ -178,6 +178,10 @@ pub trait TypeOps: Sync {
     fn decode(&self, b: &[u8]) -> Outcome<Decoded>;
     /// top-level convenience entry point
     fn decode_top(&self, b: &[u8]) -> Outcome<Value>;
+    /// write one value into a caller-owned context (several values share one stream)
+    fn ser_into(&self, v: &Value, ctx: &mut SerializationContext<Vec<u8>>) -> desert_core::Result<()>;
+    /// read one value from a caller-owned context
+    fn de_from(&self, ctx: &mut DeserializationContext<'_>) -> desert_core::Result<Value>;
 }
 
 pub struct Ops<T>(pub PhantomData<fn() -> T>);
@@ -203,6 +207,38 @@ impl<T: ModelType + BinarySerializer + BinaryDeserializer> TypeOps for Ops<T> {
     fn decode_top(&self, b: &[u8]) -> Outcome<Value> {
         lift(guarded(|| desert_core::deserialize::<T>(b).map(|x| x.to_model())))
     }
+    fn ser_into(&self, v: &Value, ctx: &mut SerializationContext<Vec<u8>>) -> desert_core::Result<()> {
+        T::from_model(v).serialize(ctx)
+    }
+    fn de_from(&self, ctx: &mut DeserializationContext<'_>) -> desert_core::Result<Value> {
+        Ok(T::deserialize(ctx)?.to_model())
+    }
+}
+
+/// several values through one context: [(type, value)] -> bytes
+pub fn stream_encode(items: &[(&dyn TypeOps, &Value)]) -> Outcome<Vec<u8>> {
+    lift(guarded(|| {
+        let mut ctx = SerializationContext::new(Vec::new());
+        for (ops, v) in items {
+            ops.ser_into(v, &mut ctx)?;
+        }
+        Ok(ctx.into_output())
+    }))
+}
+/// several values out of one context; returns the values and the bytes left
+pub fn stream_decode(types: &[&dyn TypeOps], b: &[u8]) -> Outcome<(Vec<Value>, usize)> {
+    lift(guarded(|| {
+        let mut ctx = DeserializationContext::new(b);
+        let mut out = Vec::new();
+        for ops in types {
+            out.push(ops.de_from(&mut ctx)?);
+        }
+        let mut left = 0usize;
+        while ctx.read_u8().is_ok() {
+            left += 1;
+        }
+        Ok((out, left))
+    }))
 }
 
 /// Drive an explicit context (used by the string-table and primitive drivers).
